@@ -205,7 +205,38 @@ class Sharing:
         if name is None:
             return False
         n = name.lower()
-        return n == 'ptr' or n.endswith('ptr') or n.startswith('ptr') or n in INJECTIVE_NAMES
+        if n == 'ptr' or n.endswith('ptr') or n.startswith('ptr') or n in INJECTIVE_NAMES:
+            return True
+        return b is not None and b['k'] == 'ref' and self.enumeration_map(b['d'])
+
+    def enumeration_map(self, d):
+        """an index array every element of which is defined by a post-incremented counter (`idx[i] = c++`, or a choice between such
+        counters: `idx[i] = mask[i] ? np++ : nu++`): the numbering of the members of each class is injective"""
+        key = ('enum', d)
+        if not hasattr(self, '_enum'):
+            self._enum = {}
+        if key in self._enum:
+            return self._enum[key]
+        f = self.f
+        defs = []
+        for n in f.nodes.values():
+            if n['k'] == 'bin' and n['op'] == '=':
+                lhs = unwrap(n['x'])
+                if lhs is not None and lhs['k'] == 'idx' and unwrap(lhs['b']) is not None and unwrap(lhs['b'])['k'] == 'ref' and unwrap(lhs['b'])['d'] == d:
+                    defs.append(n)
+
+        def counter(e):
+            e = unwrap(e)
+            if e is None:
+                return False
+            if e['k'] == 'un' and e['op'] == '++' and e.get('post') and unwrap(e['e'])['k'] in ('ref', 'mem'):
+                return True
+            if e['k'] == 'cond':
+                return counter(e['x']) and counter(e['y'])
+            return False
+        ok = bool(defs) and all(counter(n['y']) for n in defs) and not any(x is self.r.node for n in defs for x in f.ancestors(n))
+        self._enum[key] = ok
+        return ok
 
     def owned_private(self, d, depth):
         """a private variable whose every definition is an owned expression (row cursors, row heads)"""
